@@ -26,7 +26,13 @@ import (
 func c17Cfg(jobs string) string {
 	s := "scrape_configs:\n"
 	for _, j := range jobs {
-		s += fmt.Sprintf("- job_name: %c\n  relabel_configs:\n  - {source_labels: [drop], regex: \"yes\", action: drop}\n  static_configs:\n  - targets: [\"p:1\"]\n", j)
+		regex := "yes"
+		if j >= 'a' && j <= 'z' {
+			// the same job with its relabeling edited (an equivalent rule): the job is KEPT by the reload
+			regex = "yes|YES"
+			j = j - 'a' + 'A'
+		}
+		s += fmt.Sprintf("- job_name: %c\n  relabel_configs:\n  - {source_labels: [drop], regex: \"%s\", action: drop}\n  static_configs:\n  - targets: [\"p:1\"]\n", j, regex)
 	}
 	if jobs == "" {
 		s += "- job_name: zz\n  static_configs:\n  - targets: [\"p:1\"]\n"
@@ -56,6 +62,8 @@ func c17Groups(job byte, v int) []*targetgroup.Group {
 		return mk("t1", "t2")
 	case 3:
 		return mk("t1", "d")
+	case 4:
+		return mk("t2")
 	}
 	return nil
 }
@@ -66,6 +74,8 @@ func c17Active(v int) []string {
 		return []string{"t1"}
 	case 2:
 		return []string{"t1", "t2"}
+	case 4:
+		return []string{"t2"}
 	}
 	return nil
 }
@@ -191,7 +201,7 @@ func (m *c17Model) apply(op c17Op) {
 	case "update":
 		e := map[string]bool{}
 		for j, v := range op.U {
-			if v < 0 || !strings.Contains(m.Jobs, j) {
+			if v < 0 || !strings.Contains(strings.ToUpper(m.Jobs), j) {
 				continue
 			}
 			m.Active[j] = append([]string{}, c17Active(v)...)
@@ -203,14 +213,15 @@ func (m *c17Model) apply(op c17Op) {
 		m.Explore = e
 	case "reload":
 		m.Jobs = op.Jobs
+		up := strings.ToUpper(op.Jobs)
 		for j := range m.Active {
-			if !strings.Contains(op.Jobs, j) {
+			if !strings.Contains(up, j) {
 				delete(m.Active, j)
 				delete(m.Dropped, j)
 			}
 		}
 		for k := range m.Explore {
-			if !strings.Contains(op.Jobs, k[:1]) {
+			if !strings.Contains(up, k[:1]) {
 				delete(m.Explore, k)
 			}
 		}
@@ -238,7 +249,7 @@ func (m *c17Model) view() c17View {
 
 func c17Alphabet(thorough bool) []c17Op {
 	var ops []c17Op
-	vals := []int{-1, 0, 1, 2, 3}
+	vals := []int{-1, 0, 1, 2, 3, 4}
 	for _, a := range vals {
 		for _, b := range vals {
 			if a == -1 && b == -1 {
@@ -248,7 +259,7 @@ func c17Alphabet(thorough bool) []c17Op {
 		}
 	}
 	ops = append(ops, c17Op{Kind: "update", U: map[string]int{"A": 2, "B": 1, "C": 2}}, c17Op{Kind: "update", U: map[string]int{"C": 1}})
-	for _, j := range []string{"AB", "A", "B", "ABC"} {
+	for _, j := range []string{"AB", "A", "B", "ABC", "aB", "Ab"} {
 		ops = append(ops, c17Op{Kind: "reload", Jobs: j})
 	}
 	if !thorough {
@@ -261,7 +272,7 @@ func c17Alphabet(thorough bool) []c17Op {
 			}
 			a, aok := o.U["A"]
 			b, bok := o.U["B"]
-			if _, hasC := o.U["C"]; hasC || (aok && bok && (a == 2 || a == -1 || a == 0) && (b == 3 || b == -1 || b == 1)) {
+			if _, hasC := o.U["C"]; hasC || (aok && bok && (a == 2 || a == -1 || a == 4) && (b == 3 || b == -1 || b == 1)) {
 				red = append(red, o)
 			}
 		}
@@ -299,7 +310,7 @@ func c17Seq(ops []c17Op, universe map[string]uint64) (string, string, c17View, c
 		for j, ts := range x {
 			out[j] = []string{}
 			for _, t := range ts {
-				out[j] = append(out[j], addrOf(t))
+				out[j] = append(out[j], fmt.Sprintf("%s@%p", addrOf(t), t))
 			}
 		}
 		return chk.JSON(out)
@@ -357,14 +368,14 @@ func c17Step(st c17St, in c17In) c17St {
 	switch in.Kind {
 	case "update":
 		for j, v := range in.U {
-			if v >= 0 && strings.Contains(st.Jobs, j) {
+			if v >= 0 && strings.Contains(strings.ToUpper(st.Jobs), j) {
 				act[j] = append([]string{}, c17Active(v)...)
 			}
 		}
 	case "reload":
 		st.Jobs = in.Jobs
 		for j := range act {
-			if !strings.Contains(in.Jobs, j) {
+			if !strings.Contains(strings.ToUpper(in.Jobs), j) {
 				delete(act, j)
 			}
 		}
